@@ -563,7 +563,8 @@ P_a_reload(s, f) ==
     [] fr.pc = "1" -> IF fr.l = <<>> THEN Ret(s, f, 1)
                       ELSE Call(s, f, "2", "_reload", Head(fr.l), 0, fr.a, fr.b)
     [] fr.pc = "2" -> Await(s, f, "3")
-    [] fr.pc = "3" -> Goto(SetL(DropKids(s, f), f, Tail(fr.l)), f, "1")     \* tornado_sleep(warmup) is not awaited
+    [] fr.pc = "3" ->      \* tornado_sleep(warmup_delay) is NOT awaited: a timer that wakes nobody (f = 0)
+         Goto([SetL(DropKids(s, f), f, Tail(fr.l)) EXCEPT !.tm = @ \cup {[f |-> 0, due |-> s.now + s.cfg.wg]}], f, "1")
 
 \* ---- Arbiter.manage_watchers() body (the synchronized wrapper is in P_periodic)
 P_manage_watchers(s, f) ==
@@ -603,7 +604,11 @@ P_periodic(s, f) ==
   CASE fr.pc = "0" -> IF s.restarting \/ s.slot # "" THEN Goto(s, f, "2")        \* ConflictError, logged
                       ELSE Call([s EXCEPT !.slot = "manage_watchers"], f, "1", "manage_watchers", 0, 0, 0, 0)
     [] fr.pc = "1" -> Await(SyncRelease(s, LastKid(s, f)), f, "2")
-    [] fr.pc = "2" -> Ret([DropKids(s, f) EXCEPT !.pnext = PeriodNext(s), !.pdue = PeriodNext(s)], f, 1)
+    [] fr.pc = "2" ->      \* _schedule_next.  tornado computes floor((now - due) / period) in floats: when the
+                           \* pass ended an exact multiple of the period late, rounding decides between "now" and
+                           \* "one period from now" -- both happen (pjit lets the environment pick the early one)
+         Ret([DropKids(s, f) EXCEPT !.pnext = PeriodNext(s), !.pdue = PeriodNext(s),
+                                    !.pjit = s.now > s.pdue /\ (s.now - s.pdue) % s.cfg.cd = 0], f, 1)
 
 \* ---- the generic exclusive operation frame: fr.nm = which, runs the underlying coroutine and relays its result
 OpTarget(s, fr) ==
@@ -843,10 +848,13 @@ Fork(s, p, ob) ==
                Line("fork", "", c, p, "", "")))
 DueTimers(s) == { t \in s.tm : t.due <= s.now }
 \* a due timer fires (any of the due ones): its frame resumes
-FireTimer(s, t) == [Fresh(s) EXCEPT !.tm = @ \ {t}, !.cur = <<t.f>>]
+FireTimer(s, t) == IF t.f = 0 THEN [Fresh(s) EXCEPT !.tm = @ \ {t}]
+                   ELSE [Fresh(s) EXCEPT !.tm = @ \ {t}, !.cur = <<t.f>>]
 FirePeriodic(s) ==
   LET id == Min(FreeIds(s)) IN
   [Fresh(s) EXCEPT !.pnext = -1, !.fr[id] = [NoFrame EXCEPT !.fn = "periodic", !.pc = "0"], !.cur = <<id>>]
+PeriodicEarly(s) == [Fresh(s) EXCEPT !.pnext = s.now, !.pdue = s.now, !.pjit = FALSE]
+CanPeriodicEarly(s) == s.pjit /\ s.pnext = s.now + s.cfg.cd
 NextDeadline(s) == Min({ t.due : t \in s.tm } \cup (IF s.pnext # -1 THEN {s.pnext} ELSE {}))
 HasDeadline(s) == s.tm # {} \/ s.pnext # -1
 \* time passes to the next deadline (never past one)
